@@ -29,8 +29,10 @@ Step ==
     /\ l <= Len(Runs[rid].events)
     /\ LET e == Ev IN
        CASE e.op = "connect" ->
-              /\ IF e.fault THEN (e.res = "terr" /\ UNCHANGED conn) ELSE (e.res = "ok" /\ conn' = "connected")
-              /\ UNCHANGED <<rbuf, eof, ioerr, poisoned, pend>>
+              \* a (re)connection starts from a fresh stream
+              /\ IF e.fault THEN (e.res = "terr" /\ UNCHANGED <<conn, rbuf, eof, ioerr, poisoned>>)
+                 ELSE (e.res = "ok" /\ conn' = "connected" /\ rbuf' = <<>> /\ eof' = FALSE /\ ioerr' = FALSE /\ poisoned' = FALSE)
+              /\ UNCHANGED pend
          [] e.op \in {"read_unconnected", "write_unconnected"} ->
               e.res = "terr" /\ UNCHANGED <<conn, rbuf, eof, ioerr, poisoned, pend>>
          [] e.op = "feed" -> rbuf' = rbuf \o e.bytes /\ UNCHANGED <<conn, eof, ioerr, poisoned, pend>>
